@@ -14,3 +14,4 @@ import MW.Props.C11
 #print axioms MW.Props.C11.kv_step_refines
 #print axioms MW.Props.C11.reader_isolated
 #print axioms MW.Props.C11.deleteBucket_total
+#print axioms MW.Props.C11.iter_write_shape
